@@ -67,7 +67,7 @@ def gen_cases(tier, seed):
     for c in sc:
         for o in optsets(1):
             cases.append({'shape': c['shape'], 'src': c['src'], 'opts': o})
-    for i in range(140 if tier == 'quick' else 3000):
+    for i in range(140 if tier == 'quick' else 1200):
         s, _ = modgen.generate(seed, 30000 + i, guarded=(i % 2 == 0), size=8 + (i % 3) * 5)
         for o in optsets(2):
             cases.append({'shape': 'modgen', 'src': s, 'opts': o})
@@ -96,8 +96,8 @@ def main(tier, seed):
             slim['src_b64'] = c.get('src_b64')
         run.cell('shape_class', c['shape'].split('|')[0].split(':')[0].split('.')[0])
         run.add(slim, r)
-    pool.run_cases(heavy, 'vf.props.nameeng:run_case', timeout=60, batch=2, on_result=on, deadline=run.deadline)
-    pool.run_cases(light, 'vf.props.nameeng:run_case', timeout=30, batch=40, on_result=on, deadline=run.deadline)
+    pool.run_cases(light, 'vf.props.nameeng:run_case', timeout=60, batch=40, on_result=on, deadline=run.deadline)
+    pool.run_cases(heavy, 'vf.props.nameeng:run_case', timeout=180, batch=2, on_result=on, deadline=run.deadline)
     return run.finish(
         rule='interface-focused templates (keyword calls to every parameter kind, lambdas called by keyword, methods with / and decorated first '
              'parameters, nested and conditional class bodies, dotted imports, dataclass / NamedTuple fields, metaclass keywords, match class '
